@@ -37,6 +37,13 @@ Proof. exact list_values_verbatim. Qed.
 Theorem C13_package_name : forall s, all_ident (package_name s) = true.
 Proof. exact package_name_is_identifier. Qed.
 (* before the repair a backslash in a message made the literal illegal (defect D14, fixed) *)
+(* the engine's scanner (scan_literal) refuses a raw byte-order mark inside a literal: a bytewise escaper loses such texts, the
+   escaper as repaired (96fbecf) writes the escape and the text is read back *)
+Theorem C13_refuted_before_fix_bom :
+  scan_literal 10 (bytewise_escape (String (chr 239) (String (chr 187) (String (chr 191) "x"))) ++ """") = None
+  /\ scan_literal 10 (escape (String (chr 239) (String (chr 187) (String (chr 191) "x"))) ++ """")
+     = Some (String (chr 239) (String (chr 187) (String (chr 191) "x")), "").
+Proof. exact refuted_before_fix_bom. Qed.
 Theorem C13_refuted_before_fix : scan_literal 10 (old_sanitized "a\d" ++ """") = None.
 Proof. exact refuted_before_fix_backslash. Qed.
 
@@ -58,3 +65,4 @@ Print Assumptions C13_message.
 Print Assumptions C13_list_values_verbatim.
 Print Assumptions C13_package_name.
 Print Assumptions C13_refuted_before_fix.
+Print Assumptions C13_refuted_before_fix_bom.
